@@ -33,7 +33,10 @@ def drop(d):
     sh("git -C /repo worktree remove --force %s; git -C /repo worktree prune" % d)
 
 
-def run_demo(tree, demo):
+def run_demo(tree, demo, side="with", tag=""):
+    """side: "with" (patched tree) or "without" (clean tree). Companion files next to the demo named
+    <demo stem>*_with_test.go / *_without_test.go go only into that side; other <demo stem>*_test.go files into both.
+    tag: a build tag set on the patched side (a demo of a new API may bind it through tagged shim files)."""
     if os.path.isdir(demo):
         shutil.copytree(demo, os.path.join(tree, "zz_demo"))
         rc, out = sh("go run ./zz_demo", cwd=tree)
@@ -44,9 +47,25 @@ def run_demo(tree, demo):
     sub = {"zog": ".", "zog_test": ".", "zhttp": "zhttp", "zhttp_test": "zhttp", "internals": "internals", "conf": "conf", "zenv": "zenv", "zjson": "parsers/zjson", "i18n": "i18n"}.get(pkg, ".")
     dst = os.path.join(tree, sub, "zz_demo_test.go")
     shutil.copy(demo, dst)
+    extra = []
+    stem = os.path.basename(demo)[: -len("_test.go")]
+    for f in sorted(os.listdir(os.path.dirname(demo))):
+        if f == os.path.basename(demo) or not (f.startswith(stem) and f.endswith("_test.go")):
+            continue
+        if "newapi" in f or "_api_" in f or "_base_" in f:
+            continue  # shows the advertised behaviour of a new API: not part of the demonstration
+        other = "without" if side == "with" else "with"
+        if f.endswith("_%s_test.go" % other) and "//go:build" not in open(os.path.join(os.path.dirname(demo), f)).read():
+            continue
+        e = os.path.join(tree, sub, "zz_" + f)
+        shutil.copy(os.path.join(os.path.dirname(demo), f), e)
+        extra.append(e)
     names = re.findall(r"^func (Test\w+)\(", src, re.M)
-    rc, out = sh("go test -vet=off -count=1 -run '^(%s)$' ./%s" % ("|".join(names), sub), cwd=tree)
+    tags = "-tags %s" % tag if (tag and side == "with") else ""
+    rc, out = sh("go test -vet=off -count=1 %s -run '^(%s)$' ./%s" % (tags, "|".join(names), sub), cwd=tree)
     os.remove(dst)
+    for e in extra:
+        os.remove(e)
     return rc, out
 
 
@@ -84,8 +103,21 @@ def main():
     name = "%s-%s" % (pid, n)
     res = {"property": pid, "name": name}
 
+    baseline = ""
+    if "--baseline" in args:
+        baseline = args[args.index("--baseline") + 1]
+    tag = "change%s" % n
     clean = worktree()
-    rc0, out0 = run_demo(clean, demo) if demo else (None, "")
+    if baseline:
+        # the demonstration needs an API that does not exist on the pinned tree: "without the change" is the
+        # author's correct implementation of the same feature
+        rcb, outb = sh("git apply %s" % baseline, cwd=clean)
+        assert rcb == 0, outb
+    demo0 = demo
+    if "--without-demo" in args:
+        # the demonstration uses a new API: on the pinned tree the author's same scenario without that API is run
+        demo0 = os.path.join(src, args[args.index("--without-demo") + 1])
+    rc0, out0 = run_demo(clean, demo0, "without" if not baseline else "with", tag) if demo else (None, "")
     drop(clean)
     res["demo_without_change"] = "passes" if rc0 == 0 else "FAILS"
 
@@ -96,7 +128,7 @@ def main():
     res["builds"] = rc == 0
     rc, out = sh("go test -vet=off -count=1 ./...", cwd=t)
     res["existing_suite_passes"] = rc == 0
-    rc1, out1 = run_demo(t, demo) if demo else (None, "")
+    rc1, out1 = run_demo(t, demo, "with", tag) if demo else (None, "")
     res["demo_with_change"] = "fails" if rc1 not in (0, None) else "PASSES"
     caught = []
     reports = []
@@ -143,6 +175,13 @@ def main():
         else:
             # keep the demo under a name the go tool ignores, so that /verif never compiles it by accident
             shutil.copy(demo, os.path.join(dst, "demo_test.go.txt"))
+            stem = os.path.basename(demo)[: -len("_test.go")]
+            for f in sorted(os.listdir(os.path.dirname(demo))):
+                if f != os.path.basename(demo) and f.startswith(stem) and f.endswith("_test.go"):
+                    shutil.copy(os.path.join(os.path.dirname(demo), f), os.path.join(dst, f + ".txt"))
+    if baseline:
+        if os.path.abspath(baseline) != os.path.abspath(os.path.join(dst, "baseline_correct_feature.diff")):
+            shutil.copy(baseline, os.path.join(dst, "baseline_correct_feature.diff"))
     if os.path.exists(notes):
         shutil.copy(notes, os.path.join(dst, "notes.md"))
         txt = open(notes).read()
@@ -160,7 +199,7 @@ def main():
         "author": "independent sub-agent given only the property text and a scratch worktree",
         "what_i_ran": [
             "git worktree add /tmp/sk.X HEAD (of /repo); git apply patch.diff; go build ./...; go test -vet=off -count=1 ./...  -> build ok, existing suite passes",
-            "demonstration copied into the patched tree -> fails; into a clean worktree -> passes",
+            "demonstration copied into the patched tree -> fails; into a clean worktree -> passes" + (" (clean worktree + baseline_correct_feature.diff: the demonstration uses an API the pinned tree does not have)" if baseline else ""),
             "bin/zogcheck -prop C01..C20 -repo <patched tree> -> see caught_by",
         ],
         "caught_by": ", ".join(caught) if caught else "none",
